@@ -34,3 +34,59 @@ def check_dtypes(ctx, rule="R-double-precision", files=("speckit/core.py", "spec
                     else:
                         ctx.holds(rule, construct, t, where)
     ctx.need("dtype conversions on the data path", n, 40)
+
+
+_LIKE_FIXTURE = """
+def f(inputs, out, q, N):
+    buf = np.empty_like(inputs[0], shape=(q + 1, N))
+    buf[:q] = inputs
+    buf[q] = out
+    return buf
+def g(inputs, out, q, N):
+    buf = np.empty((q + 1, N), dtype=np.float64)
+    buf[:q] = inputs
+    buf[q] = out
+    return buf
+"""
+
+
+def _borrowed_dtype_sites(mod):
+    """[(function, buffer, allocation, store, source)] : a buffer allocated with the dtype of one array (np.empty_like(a, ...), dtype=a.dtype) that
+    receives another array's samples: those are silently cast to a's dtype (an integer or float32 first channel truncates all the others)."""
+    out = []
+    for fn in [n for n in ast.walk(mod) if isinstance(n, ast.FunctionDef)]:
+        allocs = {}
+        for n in ast.walk(fn):
+            if not (isinstance(n, ast.Assign) and len(n.targets) == 1 and isinstance(n.targets[0], ast.Name) and isinstance(n.value, ast.Call)): continue
+            c = n.value; fname = ast.unparse(c.func).split(".")[-1]
+            dt = next((k.value for k in c.keywords if k.arg == "dtype"), None)
+            src = None
+            if fname in ("empty_like", "zeros_like", "ones_like", "full_like") and c.args and dt is None: src = c.args[0]
+            elif fname in ("empty", "zeros", "ones", "full") and isinstance(dt, ast.Attribute) and dt.attr == "dtype": src = dt.value
+            if src is not None: allocs[n.targets[0].id] = (n, ast.unparse(src))
+        if not allocs: continue
+        for n in ast.walk(fn):
+            if isinstance(n, ast.Assign):
+                for t in n.targets:
+                    if isinstance(t, ast.Subscript) and isinstance(t.value, ast.Name) and t.value.id in allocs:
+                        a, src = allocs[t.value.id]
+                        val = ast.unparse(n.value)
+                        if val != src and not isinstance(n.value, ast.Constant): out.append((fn, t.value.id, a, n, src))
+    return out
+
+
+def check_borrowed_dtype(ctx, rule, files, floor=5):
+    got = _borrowed_dtype_sites(ast.parse(_LIKE_FIXTURE))
+    assert len(got) == 2 and all(g_[0].name == "f" for g_ in got), "rule self-test failed"
+    nfun = 0; bad = 0
+    for rel in files:
+        if rel not in ctx.repo.mods: continue
+        mod = ctx.repo.module(rel)
+        nfun += sum(1 for n in ast.walk(mod) if isinstance(n, ast.FunctionDef))
+        for fn, buf, a, stn, src in _borrowed_dtype_sites(mod):
+            bad += 1
+            ctx.violated(rule, f"{rel}::{fn.name}[{' '.join(ast.unparse(stn).split())[:60]}]", f"the buffer '{buf}' is allocated with the dtype of {src} (line {a.lineno}) and then receives "
+                         f"{' '.join(ast.unparse(stn.value).split())[:40]}: records of another dtype are silently cast (an integer / float32 first channel truncates the others), so the "
+                         "result depends on which channel is listed first", f"{rel}:{stn.lineno}")
+    ctx.need("functions scanned for buffers with a borrowed dtype", nfun, floor)
+    if not bad: ctx.holds(rule, ",".join(files), f"{nfun} functions: no channel buffer takes its dtype from one of the records it holds (positive control: the built-in fixture is reported)", files[0])
